@@ -52,7 +52,7 @@ DET = {
  'C10-1': (False, 'C10', '', 'quick', 'monotone sweep is not under contract'),
  'C10-2': (False, 'C10', '', 'quick', 'Delaunay snapping is not under contract'),
  'C10-3': (False, 'C10', '', 'quick', 'monotone builder is not under contract'),
- 'C07-1': (False, 'C07', '', 'quick', 'Polygon-Polygon distance (R-tree search, hole branch) is not under contract'),
+ 'C07-1': (True, 'C07', 'Verus obligation C07.V.polygon_polygon_branches (mirror-image hole branch)', 'quick', 'missed by the first run; Verus unit c07_branches (leaf kernels abstract) added afterwards; no K twin: VIOLATION ... no-failing-input-found'),
  'C07-2': (False, 'C07', '', 'quick', 'nearest_neighbour_distance (R-tree) is not under contract'),
  'C07-3': (True, 'C07', 'c07_k_line_string_contains_point_axis', 'quick', 'missed by the first run; harness added afterwards'),
  'C09-1': (False, 'C09', '', '-', 'C09 is not applicable (no check)'),
